@@ -10,7 +10,10 @@ code.  Compared: raises-or-not, the three maps (exactly), the A, B, C, D of the 
 LinearICSystem (tolerance: the code differentiates numerically); for a share of the cases also
 what the resulting system computes: `dynamics` / `output` at points, `linearize` at a point and a
 discrete-time `input_output_response`, with the state / input held as Python ints, tuples,
-integer arrays or floats (model: `Wiring.eval`, `IC.dtTraj`; driver requests `ev` / `tr`)."""
+integer arrays or floats (model: `Wiring.eval`, `IC.dtTraj`; driver requests `ev` / `tr`); for
+`add_unused=True` the labels of the appended external signals (model: `IC.addedLabels`, driver
+block `un`).  Blocks marked `C07-v07` (wide vector signals, dictionary order of indexed labels,
+add_unused stream, label comparison) were added after the seeded changes C07-m6 / C07-m7."""
 import re
 import warnings
 from fractions import Fraction
@@ -560,6 +563,9 @@ def run_call(systems, call):
                    "im": fmat(T.input_map, nu, T.ninputs),
                    "om": fmat(T.output_map, T.noutputs, ny + nu),
                    "cls": type(T).__name__}
+            # >>> C07-v07: names of the external signals (compared for add_unused calls)
+            res["inl"], res["outl"] = list(T.input_labels), list(T.output_labels)
+            # <<< C07-v07
             if isinstance(T, ct.StateSpace):
                 lin = T
             else:
@@ -598,6 +604,15 @@ def parse_out(line):
     assert t.next() == "om"
     res["om"] = read_mat(t)
     k = t.next()
+    # >>> C07-v07: add_unused: labels of the appended inputs / outputs (IC.addedLabels)
+    if k == "un":
+        if t.t[t.i] == "err":
+            t.next()
+            return {"driver": "addedLabels: " + line[:200]}
+        res["uin"] = [t.next() for _ in range(t.nat())]
+        res["uout"] = [t.next() for _ in range(t.nat())]
+        k = t.next()
+    # <<< C07-v07
     if k == "lin":
         n = t.nat()
         res["lin"] = {"n": n, "A": read_mat(t), "B": read_mat(t), "C": read_mat(t), "D": read_mat(t)}
@@ -622,7 +637,7 @@ def F(M):
 def canon_unused(res, base):
     """add_unused appends the unused signals in the iteration order of a Python set: sort the
     appended columns of input_map (with B, D) and rows of output_map (with C, D)"""
-    if "err" in res or base is None:
+    if "err" in res or "driver" in res or base is None:
         return res
     nin0, nout0 = base
     res = dict(res)
@@ -637,6 +652,15 @@ def canon_unused(res, base):
         rows = rows[:nout0] + sorted(rows[nout0:], key=lambda r: om[r])
     res["im"] = [[res["im"][r][c] for c in cols] for r in range(len(res["im"]))]
     res["om"] = [res["om"][r] for r in rows]
+    # >>> C07-v07: every appended column / row keeps its name (implementation: all labels of the
+    # result; model: the labels of the appended signals only)
+    if "inl" in res and len(res["inl"]) == nin and len(res["outl"]) == nout:
+        res["inl"] = [res["inl"][c] for c in cols]
+        res["outl"] = [res["outl"][r] for r in rows]
+    if "uin" in res and len(res["uin"]) == nin - nin0 and len(res["uout"]) == nout - nout0:
+        res["uin"] = [res["uin"][c - nin0] for c in cols[nin0:]]
+        res["uout"] = [res["uout"][r - nout0] for r in rows[nout0:]]
+    # <<< C07-v07
     if "lin" in res:
         L = dict(res["lin"])
         L["B"] = [[row[c] for c in cols] for row in L["B"]]
@@ -658,13 +682,35 @@ def rand_mat(rng, p, m, lo=-2, hi=2, zero=0.3):
     return [[str(0 if rng.random() < zero else rng.randint(lo, hi)) for _ in range(m)] for _ in range(p)]
 
 
-def gen_system(rng, name, style, used_labels=None, nl=False):
+# >>> C07-v07: indexed labels whose dictionary (insertion) order is not the lexicographic order of
+# the label strings: `_find_signals` lists the channels of a base name / slice in dictionary order
+def index_numbers(rng, n):
+    """channel numbers of an n-channel vector signal, in dictionary order"""
+    r = rng.random()
+    if r < 0.70:
+        return list(range(n))                       # u[0] .. u[n-1]
+    if r < 0.80:
+        k0 = rng.choice([8, 9, 9, 98, 99])          # u[9], u[10]: ascending, but '10' < '9' as text
+        return list(range(k0, k0 + n))
+    if r < 0.90:
+        ks = list(range(n))                         # labels given in another order: u[1], u[0]
+        rng.shuffle(ks)
+        return ks
+    return sorted(rng.sample(range(0, 14), n))      # gaps: u[2], u[7], u[11]
+# <<< C07-v07
+
+
+def gen_system(rng, name, style, used_labels=None, nl=False, dims_=None, bases=None):
     nin, nout = rng.choice([1, 1, 2, 2, 3]), rng.choice([1, 1, 2, 2, 3])
     n = rng.choice([0, 1, 1, 2, 2, 3])
+    if dims_ is not None:
+        nin, nout = dims_
     if style == "idx":
         ib, ob = rng.choice([("u", "y"), ("in", "out"), ("u", "y")])
-        inl = ["%s[%d]" % (ib, k) for k in range(nin)]
-        outl = ["%s[%d]" % (ob, k) for k in range(nout)]
+        if bases is not None:
+            ib, ob = bases
+        inl = ["%s[%d]" % (ib, k) for k in (index_numbers(rng, nin) if dims_ is None else range(nin))]
+        outl = ["%s[%d]" % (ob, k) for k in (index_numbers(rng, nout) if dims_ is None else range(nout))]
     elif style == "mixed":
         inl = ["u[%d]" % k for k in range(nin - 1)] + ["d"] if nin > 1 else ["u"]
         outl = ["y[%d]" % k for k in range(nout - 1)] + ["aux"] if nout > 1 else ["y"]
@@ -798,12 +844,16 @@ def canonical_call(systems, w):
     for e in w["inp"]:
         if e["k"] == "all":
             inplist.extend((e["s"], j) for j in range(dims(systems[e["s"]])[0]))
+        elif e["k"] == "vec":       # C07-v07: one external input per listed signal
+            inplist.extend((e["s"], j) for j in e["idx"])
         else:
             inplist.append([(b, j) for (b, j) in e["t"]])
     outlist = []
     for e in w["out"]:
         if e["k"] == "all":
             outlist.extend((e["s"], i) for i in range(dims(systems[e["s"]])[1]))
+        elif e["k"] == "vec":       # C07-v07: one external output per listed signal, gain g
+            outlist.extend((e["s"], i, e["g"]) for i in e["idx"])
         else:
             lst = []
             for (kind, b, i, g) in e["t"]:
@@ -841,8 +891,9 @@ def slice_forms(labels, idxs):
     return forms
 
 
-def render_ref(rng, systems, a, idxs, g, kind, allow_gain=True):
-    """one spelling of "signals idxs of subsystem a with gain g" (kind 'u' input / 'y' output)"""
+def render_ref(rng, systems, a, idxs, g, kind, allow_gain=True, names=0.0):
+    """one spelling of "signals idxs of subsystem a with gain g" (kind 'u' input / 'y' output);
+    names = probability of insisting on a range / base-name form when there is one (C07-v07)"""
     s = systems[a]
     labels = labels_of(s, kind)
     name = s["name"]
@@ -869,12 +920,17 @@ def render_ref(rng, systems, a, idxs, g, kind, allow_gain=True):
     else:
         opts.append(tuple([sysr, list(idxs)] + gl))
         opts.append(tuple([sysr, [labels[i] for i in idxs]] + gl))
+    nopts = []
     for f in slice_forms(labels, idxs):
-        opts.append(tuple([sysr, f] + gl))
+        nopts.append(tuple([sysr, f] + gl))
+        nopts.append(tuple([sysr, [f]] + gl))
         if g == 1:
-            opts.append("%s.%s" % (name, f))
+            nopts.append("%s.%s" % (name, f))
         if g == -1 and allow_gain:
-            opts.append("-%s.%s" % (name, f))
+            nopts.append("-%s.%s" % (name, f))
+    if nopts and rng.random() < names:
+        return rng.choice(nopts)
+    opts.extend(nopts)
     if list(idxs) == list(range(len(labels))):
         if g == 1:
             opts.extend([a, name, (sysr,), (sysr, None)])
@@ -898,23 +954,38 @@ def all_labels(systems):
     return out
 
 
-def random_call(rng, systems, w):
-    """spelling 1: random forms"""
+def bare_forms(systems, b, idxs, kind):
+    """(C07-v07) range / base-name strings without a system part ('e', 'e[2:12]') naming exactly
+    the signals idxs of subsystem b: only when no other subsystem carries that base name in the
+    same dictionary (the matches of all subsystems are summed) and it is not a system name"""
+    out = []
+    for f in slice_forms(labels_of(systems[b], kind), idxs):
+        base = f.split("[")[0]
+        others = [l for k2, s2 in enumerate(systems) if k2 != b for l in labels_of(s2, kind)]
+        if base in sysnames(systems) or base in others or \
+                any(RE_SIG.match(l) and RE_SIG.match(l).group(1) == base for l in others):
+            continue
+        out.append(f)
+    return out
+
+
+def random_call(rng, systems, w, names=0.0):
+    """spelling 1: random forms (names: see render_ref)"""
     conns = []
     for c in w["conn"]:
         b, js = c["to"]
         if rng.random() < 0.25 and len(c["from"]) > 1:
             # a list that sums == several connections to the same input
             for (a, is_, g) in c["from"]:
-                conns.append([render_ref(rng, systems, b, js, 1, "u", allow_gain=False),
-                              render_ref(rng, systems, a, is_, g, "y")])
-        elif rng.random() < 0.25 and len(js) > 1:
+                conns.append([render_ref(rng, systems, b, js, 1, "u", allow_gain=False, names=names),
+                              render_ref(rng, systems, a, is_, g, "y", names=names)])
+        elif rng.random() < 0.25 * (1 - names) and len(js) > 1:
             for k, j in enumerate(js):
                 conns.append([render_ref(rng, systems, b, [j], 1, "u", allow_gain=False)] +
                              [render_ref(rng, systems, a, [is_[k]], g, "y") for (a, is_, g) in c["from"]])
         else:
-            conns.append([render_ref(rng, systems, b, js, 1, "u", allow_gain=False)] +
-                         [render_ref(rng, systems, a, is_, g, "y") for (a, is_, g) in c["from"]])
+            conns.append([render_ref(rng, systems, b, js, 1, "u", allow_gain=False, names=names)] +
+                         [render_ref(rng, systems, a, is_, g, "y", names=names) for (a, is_, g) in c["from"]])
     rng.shuffle(conns)
     if not conns and rng.random() < 0.5:
         conns = False
@@ -928,8 +999,21 @@ def random_call(rng, systems, w):
                 s = systems[e["s"]]
                 n = dims(s)[0 if kind == "u" else 1]
                 forms = [e["s"], s["name"], (e["s"],), (s["name"], None), (e["s"], list(range(n)))]
-                forms += ["%s.%s" % (s["name"], f) for f in slice_forms(labels_of(s, kind), list(range(n)))]
-                lst.append(rng.choice(forms))
+                nforms = ["%s.%s" % (s["name"], f) for f in slice_forms(labels_of(s, kind), list(range(n)))]
+                nforms += bare_forms(systems, e["s"], list(range(n)), kind)
+                forms += nforms
+                lst.append(rng.choice(nforms if nforms and rng.random() < names else forms))
+            elif e["k"] == "vec":
+                # (C07-v07) several signals of one subsystem, one external signal each
+                g = 1 if key == "inp" else e["g"]
+                nforms = bare_forms(systems, e["s"], e["idx"], kind) if g == 1 else []
+                if g == -1:
+                    nforms = ["-" + f for f in bare_forms(systems, e["s"], e["idx"], kind)]
+                if nforms and rng.random() < 0.3:
+                    lst.append(rng.choice(nforms))
+                else:
+                    lst.append(render_ref(rng, systems, e["s"], e["idx"], g, kind,
+                                          allow_gain=(key == "out"), names=names))
             elif key == "inp":
                 refs = [render_ref(rng, systems, b, [j], 1, "u", allow_gain=False) for (b, j) in e["t"]]
                 lst.append(refs[0] if len(refs) == 1 and rng.random() < 0.6 and not is_int(refs[0]) else refs)
@@ -957,9 +1041,8 @@ def random_call(rng, systems, w):
 
 
 def counts(systems, w):
-    nin = sum(dims(systems[e["s"]])[0] if e["k"] == "all" else 1 for e in w["inp"])
-    nout = sum(dims(systems[e["s"]])[1] if e["k"] == "all" else 1 for e in w["out"])
-    return nin, nout
+    cnt = lambda e, d: dims(systems[e["s"]])[d] if e["k"] == "all" else (len(e["idx"]) if e["k"] == "vec" else 1)
+    return sum(cnt(e, 0) for e in w["inp"]), sum(cnt(e, 1) for e in w["out"])
 
 
 def input_used_as_output_ambiguous(systems, w):
@@ -1353,6 +1436,206 @@ def gen_gainmat(rng, tier):
     return {"tag": "gainmat", "sys": systems, "calls": [c0, c1]}
 
 
+# >>> C07-v07: wide vector signals (11+ channels) and add_unused with many unused signals
+
+def pick_range(rng, n, k):
+    """k consecutive positions out of n; for n >= 11 mostly a range that contains channel 10 and one
+    of the channels 2..9 (there the numeric order of the channels is not the lexicographic order
+    of their labels)"""
+    if n >= 11 and k >= 2 and rng.random() < 0.8:
+        lo = rng.randint(max(0, 11 - k), min(9, n - k))
+    else:
+        lo = rng.randint(0, n - k)
+    return list(range(lo, lo + k))
+
+
+def gen_wide(rng, tier):
+    """subsystems with vector signals of 11-13 channels ('u[0]' .. 'u[12]'), wired by base names
+    ('C.u', bare 'e'), ranges ('P.u[0:12]', 'y[2:]', 'u[9:11]') and whole-system forms on one side
+    and index lists / scalar tuples / label lists on the other; inplist / outlist by base name or
+    range.  The canonical spelling uses scalar index tuples only."""
+    ns = rng.choice([1, 2, 2, 2, 3])
+    names = rng.sample(NAMES, ns)
+    N = rng.choice([11, 11, 12, 12, 13])
+    systems = []
+    for nm in names:
+        shape = rng.choice(["sq", "sq", "fan-in", "fan-out"])
+        nin = N if shape in ("sq", "fan-in") else rng.choice([1, 2, 3])
+        nout = N if shape in ("sq", "fan-out") else rng.choice([1, 2, 3])
+        bases = rng.choice([("u", "y"), ("e", "u"), ("in", "out"), ("u", "y")])
+        sy = gen_system(rng, nm, "idx", dims_=(nin, nout), bases=bases)
+        if sy["n"] > 2:
+            sy["n"], sy["A"] = 2, [r[:2] for r in sy["A"][:2]]
+            sy["B"], sy["C"] = sy["B"][:2], [r[:2] for r in sy["C"]]
+        systems.append(sy)
+    rank = list(range(ns))
+    rng.shuffle(rank)
+    conn, taken = [], set()
+    for _ in range(rng.randint(1, 1 + ns)):
+        b = rng.randrange(ns)
+        srcs = [a for a in range(ns) if rank[a] < rank[b] or d_zero(systems[a])]
+        if not srcs:
+            continue
+        a = rng.choice(srcs)
+        nin_b, nout_a = dims(systems[b])[0], dims(systems[a])[1]
+        k = min(nin_b, nout_a)
+        if k >= 2 and rng.random() < 0.7:
+            k = rng.randint(2, k)
+        js = pick_range(rng, nin_b, k)
+        if any((b, j) in taken for j in js):
+            continue
+        r = rng.random()
+        is_ = pick_range(rng, nout_a, k) if r < 0.7 else rng.sample(range(nout_a), k)
+        frm = [(a, is_, rng.choice(GAINS))]
+        if rng.random() < 0.25:
+            a2 = rng.choice(srcs)
+            if dims(systems[a2])[1] >= k:
+                frm.append((a2, pick_range(rng, dims(systems[a2])[1], k), rng.choice(GAINS)))
+        conn.append({"to": (b, js), "from": frm})
+        taken.update((b, j) for j in js)
+
+    def entry(kind):
+        b = rng.randrange(ns)
+        n = dims(systems[b])[0 if kind == "u" else 1]
+        r = rng.random()
+        g = 1 if kind == "u" else rng.choice([1, 1, 1, -1, 2, 0.5])
+        if r < 0.3 or n < 2:
+            return {"k": "all", "s": b}
+        if r < 0.9:
+            return {"k": "vec", "s": b, "idx": pick_range(rng, n, rng.randint(2, n)), "g": g}
+        return {"k": "vec", "s": b, "idx": rng.sample(range(n), rng.randint(2, min(n, 4))), "g": g}
+    w = {"conn": conn, "inp": [entry("u") for _ in range(rng.choice([1, 1, 2]))],
+         "out": [entry("y") for _ in range(rng.choice([1, 1, 2]))]}
+    c0 = canonical_call(systems, w)
+    c1 = random_call(rng, systems, w, names=0.75)
+    if rng.random() < 0.25:
+        nin, nout = counts(systems, w)
+        c1["inputs"] = ["w%d" % k for k in range(nin)]
+        c1["outputs"] = nout
+    return {"tag": "wide", "sys": systems, "calls": [c0, c1]}
+
+
+def unused_sets(systems, w):
+    """subsystem inputs / outputs that `unused_signals()` reports for the semantic wiring w: rows
+    of input_map and connect_map / columns of output_map and connect_map that are entirely zero
+    (gains accumulate exactly; subsystem inputs listed as outputs do not count as used)"""
+    cm, om = {}, {}
+    used_in, used_out = set(), set()
+    for c in w["conn"]:
+        b, js = c["to"]
+        for (a, is_, g) in c["from"]:
+            for j, i in zip(js, is_):
+                cm[(b, j, a, i)] = cm.get((b, j, a, i), 0) + Fraction(g)
+    for (b, j, a, i), g in cm.items():
+        if g != 0:
+            used_in.add((b, j))
+            used_out.add((a, i))
+    for e in w["inp"]:
+        if e["k"] == "all":
+            used_in.update((e["s"], j) for j in range(dims(systems[e["s"]])[0]))
+        elif e["k"] == "vec":
+            used_in.update((e["s"], j) for j in e["idx"])
+        else:
+            used_in.update(e["t"])
+    for r, e in enumerate(w["out"]):
+        if e["k"] == "all":
+            used_out.update((e["s"], i) for i in range(dims(systems[e["s"]])[1]))
+        elif e["k"] == "vec":
+            if Fraction(e["g"]) != 0:
+                used_out.update((e["s"], i) for i in e["idx"])
+        else:
+            for (kind, b, i, g) in e["t"]:
+                if kind == "y":
+                    om[(r, b, i)] = om.get((r, b, i), 0) + Fraction(g)
+    used_out.update((b, i) for (r, b, i), g in om.items() if g != 0)
+    allin = [(b, j) for b, s in enumerate(systems) for j in range(dims(s)[0])]
+    allout = [(a, i) for a, s in enumerate(systems) for i in range(dims(s)[1])]
+    return [p for p in allin if p not in used_in], [p for p in allout if p not in used_out]
+
+
+def gen_unused(rng, tier):
+    """add_unused=True with many unused signals spread over several subsystems, vs the call
+    that lists the same signals explicitly (inplist / outlist entries and their labels in
+    `inputs=` / `outputs=`); explicit connections, or implicit ones (by signal names)"""
+    if rng.random() < 0.4:
+        return gen_unused_implicit(rng, tier)
+    ns = rng.choice([2, 2, 3, 3, 4])
+    names = rng.sample(NAMES, ns)
+    systems = [gen_system(rng, nm, "named", nl=rng.random() < 0.15,
+                          dims_=(rng.choice([1, 2, 3, 3, 4]), rng.choice([1, 2, 3, 3, 4]))) for nm in names]
+    w = gen_wiring(rng, systems)
+    w["conn"] = w["conn"][:rng.choice([0, 1, 2, 3, 5])]
+    if input_used_as_output_ambiguous(systems, w):
+        return None
+    nin, nout = counts(systems, w)
+    ui, uo = unused_sets(systems, w)
+    A = random_call(rng, systems, w) if rng.random() < 0.6 else canonical_call(systems, w)
+    A.update(inputs=["w%d" % k for k in range(nin)], outputs=["z%d" % k for k in range(nout)],
+             add_unused=True)
+    Bc = canonical_call(systems, w) if rng.random() < 0.6 else random_call(rng, systems, w)
+    Bc["inplist"] = enc(dec(Bc["inplist"]) + [(b, j) for (b, j) in ui]) \
+        if isinstance(dec(Bc["inplist"]), list) else enc([dec(Bc["inplist"])] + [(b, j) for (b, j) in ui])
+    Bc["outlist"] = enc(dec(Bc["outlist"]) + [(a, i) for (a, i) in uo]) \
+        if isinstance(dec(Bc["outlist"]), list) else enc([dec(Bc["outlist"])] + [(a, i) for (a, i) in uo])
+    Bc["inputs"] = A["inputs"] + [labels_of(systems[b], "u")[j] for (b, j) in ui]
+    Bc["outputs"] = A["outputs"] + [labels_of(systems[a], "y")[i] for (a, i) in uo]
+    return {"tag": "unused", "sys": systems, "calls": [A, Bc], "base": [nin, nout],
+            "uinfo": {"conn": "explicit", "nui": len(ui), "nuo": len(uo),
+                      "spread": len({b for (b, j) in ui}) > 1 or len({a for (a, i) in uo}) > 1}}
+
+
+def gen_unused_implicit(rng, tier):
+    """`interconnect(syslist, inputs=[...], outputs=[...], add_unused=True)` with connections by
+    signal names (the documented use): disturbance inputs and auxiliary outputs with names of
+    their own on several subsystems, vs the call that lists their names in `inputs` / `outputs`"""
+    case = gen_implicit(rng, tier)
+    if case is None:
+        return None
+    systems = [dict(s) for s in case["sys"]]
+    c_imp = dict(case["calls"][0])
+    cnt = 0
+    for s in systems:
+        if "sj" in s:
+            continue
+        zeroD = d_zero(s)
+        for key in ("in", "out", "B", "C", "D"):
+            s[key] = [list(r) if isinstance(r, list) else r for r in s[key]]
+        for _ in range(rng.choice([0, 1, 1, 2])):
+            s["in"].append("dst%d" % cnt)
+            cnt += 1
+            for r in s["B"]:
+                r.append(str(rng.randint(-2, 2)))
+            for r in s["D"]:
+                r.append("0" if zeroD else str(rng.randint(-2, 2)))
+        for _ in range(rng.choice([0, 1, 1, 2])):
+            s["out"].append("mon%d" % cnt)
+            cnt += 1
+            s["C"].append([str(rng.randint(-2, 2)) for _ in range(s["n"])])
+            s["D"].append(["0" if zeroD else str(rng.randint(-2, 2)) for _ in s["in"]])
+    inputs = list(c_imp["inputs"])
+    outputs = list(c_imp["outputs"])
+    alli = {l for s in systems for l in labels_of(s, "u")}
+    allo = {l for s in systems for l in labels_of(s, "y")}
+    ui = [(b, j) for b, s in enumerate(systems) for j, l in enumerate(labels_of(s, "u"))
+          if l not in allo and l not in inputs]
+    uo = [(a, i) for a, s in enumerate(systems) for i, l in enumerate(labels_of(s, "y"))
+          if l not in alli and l not in outputs]
+    li = [labels_of(systems[b], "u")[j] for (b, j) in ui]
+    lo = [labels_of(systems[a], "y")[i] for (a, i) in uo]
+    # add_unused names the added signals by their bare labels: keep them distinct (NOTES, defect 3)
+    if len(set(inputs + li)) != len(inputs + li) or len(set(outputs + lo)) != len(outputs + lo):
+        return None
+    A = dict(c_imp, add_unused=True)
+    Bc = dict(c_imp, inputs=inputs + li, outputs=outputs + lo)
+    if "outlist" in c_imp:
+        Bc["outlist"] = list(c_imp["outlist"]) + lo
+    return {"tag": "unused", "sys": systems, "calls": [A, Bc], "base": [len(inputs), len(outputs)],
+            "uinfo": {"conn": "implicit", "nui": len(ui), "nuo": len(uo),
+                      "spread": len({b for (b, j) in ui}) > 1 or len({a for (a, i) in uo}) > 1}}
+
+# <<< C07-v07
+
+
 # ---- operator forms
 
 OPNAMES = ["F", "G", "H", "Q1", "R2", "Wn"]
@@ -1598,6 +1881,17 @@ def cyclic_feedthrough(systems, res):
 
 class C07(Family):
     prop = "C07"
+    # >>> py2lean-ic: source-text tie (notes/NOTES-py2lean-ic.md): Generated/IC*.lean are rewritten from
+    # control/iosys.py and control/nlsys.py of the tree under check and proved equal to the model
+    extra_modules = ["CtrlVerif.Props.C07GenParse", "CtrlVerif.Props.C07GenInit", "CtrlVerif.Props.C07GenOps",
+                     "CtrlVerif.Props.C07GenStatic", "CtrlVerif.Props.C07Gen"]
+
+    def pre_build(self):
+        import os
+        from core import py2lean_ic, leanproj
+        problems, self.gen_info = py2lean_ic.regenerate(os.environ.get("VERIF_REPO") or "/repo", leanproj.LEAN)
+        return problems
+    # <<< py2lean-ic
     externals = ["numpy array arithmetic (matmul, +=) inside _compute_static_io / linearize",
                  "Python `re` (the harness tokenises specs and labels with the regular expressions "
                  "of _parse_spec/_find_signals)"]
@@ -1617,7 +1911,10 @@ class C07(Family):
         "a feedthrough cycle whose propagation happens to terminate in exact arithmetic "
         "(nilpotent loop gain) is not compared",
         "add_unused: the order of the appended signals (iteration order of a Python set) is not "
-        "compared",
+        "compared; which label each appended column of input_map / row of output_map carries is "
+        "(columns / rows are sorted by content together with their labels on both sides); the "
+        "appended labels are kept distinct from each other and from the given names (the code "
+        "names added signals by their bare labels and rejects duplicates)",
         "operator stream: which model expression a Python expression denotes follows Python's "
         "binary-operator protocol as mirrored in op_toks (reflected method first for a StateSpace "
         "right operand of a plain NonlinearIOSystem; StateSpace.__sub__/__rsub__/__radd__ "
@@ -1647,7 +1944,18 @@ class C07(Family):
             "wrappers, implicit, loops, gain-matrix, operator trees): dynamics()/output() at 2-3 "
             "points, linearize() at one of them, discrete-time input_output_response over 3-6 steps, "
             "state and input each held as list of Python ints / tuple / int64 / int32 array / list of "
-            "floats / float64 / float32 array, dyadic subsystem data")
+            "floats / float64 / float32 array, dyadic subsystem data; indexed labels whose dictionary "
+            "order is not the lexicographic order of the label strings (30% of the indexed-label "
+            "subsystems: channel numbers starting at 8 / 9 / 98 / 99, permuted, with gaps); a wide "
+            "stream (6%): subsystems with vector signals of 11-13 channels wired by base names, "
+            "bare base names, ranges (mostly containing channel 10 and a one-digit channel) and "
+            "whole-system forms against index lists / scalar tuples, inplist / outlist by base name "
+            "or range (one external signal per channel); an add_unused stream (5%): 2-4 subsystems "
+            "with up to 4 inputs / outputs each and few connections (explicit, or implicit by signal "
+            "names with extra disturbance inputs / monitor outputs), add_unused=True vs the call "
+            "listing the same signals and their labels explicitly; for every add_unused call the "
+            "label of each appended external input / output is compared with the model's "
+            "(IC.addedLabels)")
 
     def corpus(self):
         return [OWNED]
@@ -1658,7 +1966,13 @@ class C07(Family):
         _BAG.clear()
         while len(out) < n:
             r = rng.random()
-            if r < 0.30:
+            # >>> C07-v07: wide vector signals 6 %, add_unused with many unused signals 5 %
+            if r < 0.06:
+                c = gen_wide(rng, tier)
+            elif r < 0.11:
+                c = gen_unused(rng, tier)
+            # <<< C07-v07
+            elif r < 0.30:
                 c = gen_explicit(rng, tier)
             elif r < 0.41:
                 c = gen_implicit(rng, tier)
@@ -1734,6 +2048,24 @@ class C07(Family):
             if F(im[key]) != F(mo[key]):
                 feat.update(kind="map", which=key)
                 return Verdict(VIOLATES, "%s differs: impl %s model %s" % (key, im[key], mo[key]), feat)
+        # >>> C07-v07: add_unused — every appended external input / output carries the label of
+        # the subsystem signal its column of input_map / row of output_map is wired to (the maps
+        # agree at this point, columns / rows sorted by content together with their names), and
+        # the names given in `inputs=` / `outputs=` stay in front
+        call = case["calls"][k]
+        if call.get("add_unused") and case.get("base") and "uin" in mo and "inl" in im:
+            n0s = case["base"]
+            for which, labs, un, n0, given in (("inputs", im["inl"], mo["uin"], n0s[0], call.get("inputs")),
+                                               ("outputs", im["outl"], mo["uout"], n0s[1], call.get("outputs"))):
+                if labs[n0:] != un:
+                    feat.update(kind="label", which=which)
+                    return Verdict(VIOLATES, "add_unused: the appended %s are named %s, but (in this order of "
+                                   "the appended %s of the maps) they are wired to the subsystem signals %s"
+                                   % (which, labs[n0:], "columns" if which == "inputs" else "rows", un), feat)
+                if isinstance(given, list) and labs[:n0] != given:
+                    feat.update(kind="label-given", which=which)
+                    return Verdict(VIOLATES, "add_unused: given %s %s became %s" % (which, given, labs[:n0]), feat)
+        # <<< C07-v07
         if "lin" in mo and "lin" in im:
             if im["lin"]["n"] != mo["lin"]["n"]:
                 feat.update(kind="lin", which="n")
@@ -1798,7 +2130,9 @@ class C07(Family):
             v = self.compare_one(case, k, impl[k], model[k])
             if v is not None:
                 return v
-        if len(case["calls"]) == 2 and model[0] != model[1]:
+        # (C07-v07: the appended labels are printed for the add_unused spelling only)
+        strip = lambda m: {k2: v for k2, v in m.items() if k2 not in ("uin", "uout")}
+        if len(case["calls"]) == 2 and strip(model[0]) != strip(model[1]):
             # the two spellings are meant to be the same wiring: a generator problem, not the code's
             return Verdict(DIFFERS, "spellings differ in the model: %s vs %s" % (model[0], model[1]),
                            {"kind": "generator", "tag": case.get("tag")})
@@ -1836,6 +2170,16 @@ class C07(Family):
                 st["traj_x0"] = "int" if ev["traj"]["xt"] in INT_T else "float"
         if "err" not in m:
             st["connected"] = sum(1 for r in m["cm"] for x in r if Fraction(x) != 0) > 0
+        # >>> C07-v07
+        if case.get("uinfo"):
+            u = case["uinfo"]
+            st["unused"] = "%s/%s/%s" % (u["conn"], "spread" if u["spread"] else "one-sys",
+                                         "3+" if max(u["nui"], u["nuo"]) >= 3 else "<3")
+        if "uin" in model[0]:
+            st["added_labels"] = min(len(model[0]["uin"]) + len(model[0]["uout"]), 8)
+        if case.get("tag") == "wide":
+            st["wide_max"] = max(max(dims(s)) for s in case["sys"])
+        # <<< C07-v07
         return st
 
     def shrink(self, case):
